@@ -393,7 +393,9 @@ def weight(params, tier):
 def _bound(params, tier):
     size = len(params['waiters']) + len(params['msgs'])
     if tier == 'thorough':
-        return 2 if size <= 5 else 1
+        # bound 2 up to 4 participants (waiters + messages): measured ~14 CPU-hours for the whole tier; bound 2 on
+        # the 5-participant scenarios alone would be ~55 CPU-hours
+        return 2 if size <= 4 else 1
     return 2 if size <= 2 else 1
 
 
